@@ -144,6 +144,14 @@ def run_case(c):
     ly("ly_track", dict(p, tracks=[t0]), lambda: lilypond.from_Track(comp.tracks[0]))
     for bi, b in enumerate(t0["bars"][:2]):
         ly("ly_bar", dict(p, tracks=[dict(t0, bars=[b])]), lambda: lilypond.from_Bar(comp.tracks[0].bars[bi]))
+        # the same bar object exported while every note was a semitone higher, then put back (augment / diminish are inverse on names) and exported again
+        def edited_between():
+            bar = mk_composition(p).tracks[0].bars[bi]
+            bar.augment()
+            lilypond.from_Bar(bar)
+            bar.diminish()
+            return lilypond.from_Bar(bar)
+        ly("ly_bar", dict(p, tracks=[dict(t0, bars=[b])]), edited_between, {"exported_before": "while augmented"})
         for e in b["entries"][:3]:
             one = dict(p, tracks=[dict(t0, bars=[dict(b, entries=[e])])])
             nc = None if e["rest"] else mk_container(e)
